@@ -100,6 +100,40 @@ func chopRound(x *Term) *Term {
 // chopTrunc: x / 10^18 truncated toward zero
 func chopTrunc(x *Term) *Term { return TDivPos(x, tPow18) }
 
+// path-aware variants: the sign case split is resolved by the solver when the path condition decides it
+func (p *Path) chopTrunc(x *Term) *Term {
+	if x.lo != nil && x.lo.Sign() >= 0 || x.hi != nil && x.hi.Sign() <= 0 {
+		return chopTrunc(x)
+	}
+	if p.nonneg(x, 0) {
+		return Div(x, tPow18)
+	}
+	if p.proves(Le(x, TInt64(0))) {
+		return Neg(Div(Neg(x), tPow18))
+	}
+	return chopTrunc(x)
+}
+
+func (p *Path) chopRound(x *Term) *Term {
+	if x.lo != nil && x.lo.Sign() >= 0 || x.hi != nil && x.hi.Sign() <= 0 {
+		return chopRound(x)
+	}
+	if p.nonneg(x, 0) {
+		return chopRoundPos(x)
+	}
+	if p.proves(Le(x, TInt64(0))) {
+		return Neg(chopRoundPos(Neg(x)))
+	}
+	return chopRound(x)
+}
+
+func chopRoundPos(x *Term) *Term {
+	q := Div(x, tPow18)
+	r := Mod(x, tPow18)
+	up := Or(Gt(r, tHalf18), And(Eq(r, tHalf18), Eq(Mod(q, TInt64(2)), TInt64(1))))
+	return Add(q, Ite(up, TInt64(1), TInt64(0)))
+}
+
 var reDenom = regexp.MustCompile(`^[a-zA-Z][a-zA-Z0-9/:._-]{2,127}$`)
 
 func init() {
@@ -305,29 +339,29 @@ func init() {
 	decUn("Neg", func(p *Path, x *Term, _ token.Pos) *Term { return Neg(x) })
 	decUn("Abs", func(p *Path, x *Term, _ token.Pos) *Term { return Abs(x) })
 	decUn("Clone", func(p *Path, x *Term, _ token.Pos) *Term { return x })
-	decUn("TruncateDec", func(p *Path, x *Term, _ token.Pos) *Term { return Mul(chopTrunc(x), tPow18) })
+	decUn("TruncateDec", func(p *Path, x *Term, _ token.Pos) *Term { return Mul(p.chopTrunc(x), tPow18) })
 	decUn("Ceil", func(p *Path, x *Term, _ token.Pos) *Term {
-		q := chopTrunc(x)
+		q := p.chopTrunc(x)
 		r := Sub(x, Mul(q, tPow18))
 		return Mul(Add(q, Ite(Gt(r, TInt64(0)), TInt64(1), TInt64(0))), tPow18)
 	})
 	reg("("+pkSDK+".Dec).TruncateInt", func(p *Path, _ *frame, a []Value, pos token.Pos) Value {
-		r := chopTrunc(p.decArg(a[0], pos, "TruncateInt"))
+		r := p.chopTrunc(p.decArg(a[0], pos, "TruncateInt"))
 		p.checkBits(r, two256, pos, "TruncateInt")
 		return p.mkInt(r)
 	})
 	reg("("+pkSDK+".Dec).RoundInt", func(p *Path, _ *frame, a []Value, pos token.Pos) Value {
-		r := chopRound(p.decArg(a[0], pos, "RoundInt"))
+		r := p.chopRound(p.decArg(a[0], pos, "RoundInt"))
 		p.checkBits(r, two256, pos, "RoundInt")
 		return p.mkInt(r)
 	})
 	reg("("+pkSDK+".Dec).TruncateInt64", func(p *Path, _ *frame, a []Value, pos token.Pos) Value {
-		r := chopTrunc(p.decArg(a[0], pos, "TruncateInt64"))
+		r := p.chopTrunc(p.decArg(a[0], pos, "TruncateInt64"))
 		p.panicIf(Not(And(Ge(r, TInt(minInt64)), Le(r, TInt(maxInt64)))), p.site(pos), "Int64() out of bound")
 		return r
 	})
 	reg("("+pkSDK+".Dec).RoundInt64", func(p *Path, _ *frame, a []Value, pos token.Pos) Value {
-		r := chopRound(p.decArg(a[0], pos, "RoundInt64"))
+		r := p.chopRound(p.decArg(a[0], pos, "RoundInt64"))
 		p.panicIf(Not(And(Ge(r, TInt(minInt64)), Le(r, TInt(maxInt64)))), p.site(pos), "Int64() out of bound")
 		return r
 	})
@@ -357,12 +391,12 @@ func init() {
 		return r
 	})
 	decBin("Mul", 0, func(p *Path, x, y *Term, pos token.Pos) *Term {
-		r := chopRound(Mul(x, y))
+		r := p.chopRound(Mul(x, y))
 		p.checkBits(r, two315, pos, "Dec.Mul")
 		return r
 	})
 	decBin("MulTruncate", 0, func(p *Path, x, y *Term, pos token.Pos) *Term {
-		r := chopTrunc(Mul(x, y))
+		r := p.chopTrunc(Mul(x, y))
 		p.checkBits(r, two315, pos, "Dec.MulTruncate")
 		return r
 	})
@@ -375,13 +409,13 @@ func init() {
 	decBin("MulInt64", 2, mulInt)
 	decBin("Quo", 0, func(p *Path, x, y *Term, pos token.Pos) *Term {
 		p.panicIf(Eq(y, TInt64(0)), p.site(pos), "Dec.Quo: division by zero")
-		r := chopRound(p.tdiv(Mul(x, TInt(new(big.Int).Mul(pow18, pow18))), y))
+		r := p.chopRound(p.tdiv(Mul(x, TInt(new(big.Int).Mul(pow18, pow18))), y))
 		p.checkBits(r, two315, pos, "Dec.Quo")
 		return r
 	})
 	decBin("QuoTruncate", 0, func(p *Path, x, y *Term, pos token.Pos) *Term {
 		p.panicIf(Eq(y, TInt64(0)), p.site(pos), "Dec.QuoTruncate: division by zero")
-		r := chopTrunc(p.tdiv(Mul(x, TInt(new(big.Int).Mul(pow18, pow18))), y))
+		r := p.chopTrunc(p.tdiv(Mul(x, TInt(new(big.Int).Mul(pow18, pow18))), y))
 		p.checkBits(r, two315, pos, "Dec.QuoTruncate")
 		return r
 	})
@@ -893,4 +927,61 @@ func init() {
 		}
 		return p.mkErr(TStr("address length invalid"), nil, pos)
 	})
+}
+
+// ---------------------------------------------------------------- encoding/binary
+func init() {
+	put := func(n int, little bool) intrinsicFn {
+		return func(p *Path, _ *frame, a []Value, pos token.Pos) Value {
+			sl, ok := a[1].(SliceV)
+			if !ok {
+				p.unsupported("binary.Put on %T", a[1])
+			}
+			if len(sl.A) < n {
+				p.panicNow(p.site(pos), "binary.PutUint: index out of range", nil)
+			}
+			v := a[2].(*Term)
+			for i := 0; i < n; i++ {
+				b := Mod(Div(v, TInt(new(big.Int).Lsh(bigOne, uint(8*i)))), TInt64(256))
+				if little {
+					sl.A[i] = b
+				} else {
+					sl.A[n-1-i] = b
+				}
+			}
+			return nil
+		}
+	}
+	get := func(n int, little bool) intrinsicFn {
+		return func(p *Path, _ *frame, a []Value, pos token.Pos) Value {
+			sl, ok := a[1].(SliceV)
+			if !ok {
+				p.unsupported("binary.Uint on %T", a[1])
+			}
+			if len(sl.A) < n {
+				p.panicNow(p.site(pos), "binary.Uint: index out of range", nil)
+			}
+			r := TInt64(0)
+			for i := 0; i < n; i++ {
+				var b *Term
+				if little {
+					b = sl.A[i].(*Term)
+				} else {
+					b = sl.A[n-1-i].(*Term)
+				}
+				r = Add(r, Mul(TInt(new(big.Int).Lsh(bigOne, uint(8*i))), b))
+			}
+			return r
+		}
+	}
+	reg("(encoding/binary.littleEndian).PutUint32", put(4, true))
+	reg("(encoding/binary.littleEndian).PutUint64", put(8, true))
+	reg("(encoding/binary.littleEndian).PutUint16", put(2, true))
+	reg("(encoding/binary.bigEndian).PutUint32", put(4, false))
+	reg("(encoding/binary.bigEndian).PutUint64", put(8, false))
+	reg("(encoding/binary.bigEndian).PutUint16", put(2, false))
+	reg("(encoding/binary.littleEndian).Uint32", get(4, true))
+	reg("(encoding/binary.littleEndian).Uint64", get(8, true))
+	reg("(encoding/binary.bigEndian).Uint32", get(4, false))
+	reg("(encoding/binary.bigEndian).Uint64", get(8, false))
 }
